@@ -93,6 +93,12 @@ fn run_c02(t: &mut Tape, _tier: Tier) -> RunOut {
     mix.req.max_pairs = 8;
     mix.req.max_segs = 7;
     mix.req.big_body_one_in = 60;
+    // now and then somebody else's malformed request arrives between the authentic ones (it is
+    // refused, which is not asserted here): the authentic ones that follow it on the same worker
+    // are accepted all the same
+    mix.defect_kinds = vec!["bad-query-escape", "bad-path-escape", "bad-date", "no-eq-param"];
+    mix.max_defects = 1;
+    mix.defect_p10 = 1;
     let mut j = |cx: &DeliveryCtx, out: &mut RunOut| judge_c02(cx, out);
     run_world(t, &mix, &mut j)
 }
